@@ -91,6 +91,12 @@ func (ioc *IO) Register(slot *internal.Slot) {
 }
 
 func (ioc *IO) Deregister(slot *internal.Slot) {
+	if slot.Events != 0 {
+		// Another operation on this slot is still registered with the poller (e.g. a write is in flight while a read
+		// completes). The slot, and through it its owner, must stay reachable until that one is over as well.
+		return
+	}
+
 	if slot.Fd >= len(ioc.pending.static) {
 		delete(ioc.pending.dynamic, slot.Fd)
 	} else {
